@@ -9,21 +9,27 @@ import itertools
 _counter = itertools.count()
 
 
+_INTERN = {}
+
+
 class Term:
-    """A symbolic usize.  Identity is the name; names are unique (counter suffix)."""
+    """A symbolic usize.  Identity is the name; Terms are interned, so equality and hashing are
+    by object identity (fast) while two Terms with the same name are still the same Term."""
     __slots__ = ('name',)
 
-    def __init__(self, name):
-        self.name = name
+    def __new__(cls, name):
+        t = _INTERN.get(name)
+        if t is None:
+            t = object.__new__(cls)
+            t.name = name
+            _INTERN[name] = t
+        return t
+
+    def __reduce__(self):
+        return (Term, (self.name,))
 
     def __repr__(self):
         return self.name
-
-    def __hash__(self):
-        return hash(self.name)
-
-    def __eq__(self, o):
-        return isinstance(o, Term) and o.name == self.name
 
     def __lt__(self, o):
         return self.name < o.name
@@ -202,6 +208,40 @@ class Zone:
     def project(self, keep):
         keep = set(keep) | {ZERO}
         self.forget([v for v in self.vars if v not in keep])
+
+    def remap(self, pairs, persistent):
+        """new zone over {persistent terms} + {new terms}, where each new term is an alias of an old
+        term or an integer (pairs: [(new Term, old Term | int)]).  O(m^2); closure is preserved
+        because a closed matrix restricted to a subset of its variables (with aliases) is closed."""
+        z = Zone()
+        z.sat = self.sat
+        if not self.sat:
+            return z
+        for _, o in pairs:
+            if isinstance(o, Term):
+                self._touch(o)
+        src = {ZERO: (ZERO, 0)}
+        for v in self.vars:
+            if v is not ZERO and persistent(v):
+                src[v] = (v, 0)
+        for c, o in pairs:
+            src[c] = (ZERO, o) if isinstance(o, int) else (o, 0)
+        d = self.d
+        nd = {}
+        items = list(src.items())
+        for a, (A, oa) in items:
+            for b, (B, ob) in items:
+                if a is b:
+                    continue
+                if A is B:
+                    nd[(a, b)] = oa - ob
+                else:
+                    v = d.get((A, B))
+                    if v is not None:
+                        nd[(a, b)] = v + oa - ob
+        z.d = nd
+        z.vars = set(src)
+        return z
 
     def rename(self, mapping):
         """mapping: old Term -> new Term (bijective on the mapped part)"""
